@@ -45,8 +45,13 @@ pub const I64_POOL: [i64; 32] = [
     i64::MAX,
 ];
 
-pub fn f64_pool() -> [f64; 20] {
+pub fn f64_pool() -> [f64; 24] {
     [
+        // neighbours one unit in the last place apart (an "approximately equal" must not equate them)
+        0.3,
+        0.300_000_000_000_000_04,
+        3.0,
+        3.000_000_000_000_000_4,
         f64::NAN,
         f64::INFINITY,
         f64::NEG_INFINITY,
@@ -599,14 +604,19 @@ pub fn gen_operand_cell(idx: usize) -> VmSc {
 /// stack), no-ops and small nested blocks; the capacities either hold everything, or the int stack overflows
 /// part-way, or the block itself does not fit; the step limit is unbounded or falls inside the block.
 pub fn gen_giant(g: &mut Xo) -> VmSc {
-    let n = match g.below(6) {
+    let n = match g.below(8) {
         0 => 65_536,
         1 => 65_537,
         2 => 131_073,
+        3 => 262_145,
+        4 => 300_000,
         _ => g.log_uniform(65_536, 300_000),
     };
-    let mut pattern: Vec<Prog> = vec![Prog::I(Ins::PushInt(0))];
-    for _ in 0..g.urange(0, 6) {
+    // one in four giants is a stretch of instructions that ALL fail recoverably (empty operand stacks): hundreds of
+    // thousands of consecutive skips, each of which must count as a step and none of which may end the run
+    let all_fail = g.chance(1, 4);
+    let mut pattern: Vec<Prog> = vec![Prog::I(if all_fail { Ins::Pop(Ty::Bool) } else { Ins::PushInt(0) })];
+    for _ in 0..if all_fail { 0 } else { g.urange(0, 6) } {
         pattern.push(match g.below(6) {
             0 => Prog::I(Ins::Exec(ExecOp::Noop)),
             1 => Prog::I(Ins::PushBool(g.coin())),
@@ -640,12 +650,12 @@ pub fn gen_giant(g: &mut Xo) -> VmSc {
             bool: Vec::new(),
             program: pattern,
             inputs: Vec::new(),
-            limit,
+            limit: if all_fail { usize::MAX } else { limit },
             wrap: 0,
             giant: n,
         },
         faults: Vec::new(),
-        limits: vec![limit.min(total)],
+        limits: vec![if all_fail { total } else { limit.min(total) }],
         rebuild_at: None,
         long: true,
     }
